@@ -27,6 +27,8 @@ func (du *decodeUnit) cycle(app risc.Application, ctx *risc.Context, inBus *comp
 		fmt.Printf("\tDU: Decoding instruction %d\n", pc/4)
 	}
 	runner := app.Instructions[pc/4]
+	// Clear forward (the program may have been run by a forwarding machine)
+	runner.Forward(risc.Forward{})
 	if runner.InstructionType().IsUnconditionalBranch() {
 		du.pendingBranchResolution = true
 	}
